@@ -16,8 +16,10 @@ def handle (j : Json) : Except String Json := do
     let idx ← jList jNat (← field j "idx")
     let mMask := ndsMask pts order
     let mIdx := ndsIdx pts order
+    let rows := permuteBy pts order
+    let lit := (loopIdx rows.length rows 0).map (·.1)
     return Json.mkObj [("ok", true),
-      ("model_mask", ofBools mMask), ("model_idx", ofNats mIdx),
+      ("model_mask", ofBools mMask), ("model_idx", ofNats mIdx), ("literal_idx", ofNats lit),
       ("spec_mask", checkMask pts mask), ("spec_idx", checkSel pts idx),
       ("spec_model", checkSel pts mIdx)]
   | "ranked" =>
